@@ -50,6 +50,8 @@ BAD = {
     "duplicate-second": lambda b: {"x1": unit(b, "x1"), "m": unit(b, "m")},
     "duplicate-third-after-type": lambda b: {"x1": unit(b, "x1", definition=b.glob("units/unit_types.py::UnitType")), "x2": unit(b, "x2"), "kg": unit(b, "kg")},
     "duplicate-after-two-new-types": lambda b: {"x1": unit(b, "x1", definition=b.glob("units/unit_types.py::UnitType")), "x2": unit(b, "x2", definition=b.glob("units/unit.py::Unit")), "s": unit(b, "s")},
+    "duplicate-given-as-a-quantity": lambda b: {"m": b.new("units/quantity.py::Quantity", b.real("q"), "km")},
+    "duplicate-of-a-constant-given-as-a-quantity-after-a-new-unit": lambda b: {"x1": unit(b, "x1"), "[a_0]": b.new("units/quantity.py::Quantity", b.real("q"), "m")},
     "clash-with-prefixed-symbol": lambda b: {"x1": unit(b, "x1"), "km": unit(b, "km")},
     "new-prefixed-symbol-clashes-with-a-unit": lambda b: {"x1": unit(b, "x1"), "ol": unit(b, "ol", prefixes=b.list(["m"]))},
     "malformed-missing-magnitude": lambda b: {"x1": unit(b, "x1"), "x2": b.dict(dict(dimensions=b.list([1, 0, 0, 0, 0, 0, 0, 0])))},
@@ -187,6 +189,13 @@ def _(c):
         env.update(outer=outer)
         return dict(args=[b.obj(UE), b.dict({"y1": unit(b, "y1"), "x1": unit(b, "x1b")})], env=env)
     c.scenario("duplicate-of-the-outer-scope's-symbol", pre)
+
+    def pre_q(b):
+        env = _env(b)
+        outer = b.new(UE, b.dict({"x1": unit(b, "x1"), "x2": unit(b, "x2", definition=b.glob("units/unit_types.py::UnitType"))}))
+        env.update(outer=outer)
+        return dict(args=[b.obj(UE), b.dict({"y1": unit(b, "y1"), "x1": b.new("units/quantity.py::Quantity", b.real("q"), "km")})], env=env)
+    c.scenario("duplicate-of-the-outer-scope's-symbol-given-as-a-quantity", pre_q)
     c.raises("True", label="registration-refused")
     c.on_raise("gstate(us, up, ut) == old(gstate(us, up, ut))", "tables-as-when-the-inner-scope-was-opened")
     c.on_raise("'x1' in us._keys and 'x2' in us._keys", "outer-scope's-units-stay-registered")
